@@ -563,6 +563,15 @@ class Host(HostBase):
                 if isinstance(x, Const) and isinstance(x.value, str) and self.as_lin(y) is not None:
                     return Term("strmul", (x, y), self.ctx.new_id())
         if op == "Mod" and isinstance(a, Const) and isinstance(a.value, str):
+            simple = self._printf(a.value, b, node)
+            if simple is not None:
+                return simple
+            return Term("strformat", (a, b), self.ctx.new_id())
+        if op == "Mod" and not isinstance(a, Const) and self.is_strlike(a):
+            # printf-style formatting of a string built from data: a '%' in the data is read as a conversion
+            how = self.ctx.choose(("dynamic-format", getattr(a, "id", 0), self.i.site(node)), ["ok", "ValueError", "TypeError"])
+            if how != "ok":
+                raise self.raise_(how, "format string built from data: '%' in the data is read as a conversion", node)
             return Term("strformat", (a, b), self.ctx.new_id())
         ka, kb = self.json_kind(a), self.json_kind(b)
         if isinstance(a, Sym) or isinstance(b, Sym):
@@ -575,12 +584,45 @@ class Host(HostBase):
             return Term(op.lower(), (a, b), self.ctx.new_id())
         raise self.unsupported(node, f"{op} on {a!r} and {b!r}")
 
+    def _printf(self, template: str, b: AV, node: Any) -> Optional[AV]:
+        """'...%s...%d...' % args with plain %s / %d / %i / %r / %% conversions only, as the equivalent f-string."""
+        import re as _re
+
+        vals = list(b.items) if isinstance(b, PyTuple) else [b]
+        parts: List[AV] = []
+        pos = 0
+        k = 0
+        for m in _re.finditer(r"%(.)", template):
+            if m.start() > pos:
+                parts.append(Const(template[pos:m.start()]))
+            pos = m.end()
+            c = m.group(1)
+            if c == "%":
+                parts.append(Const("%"))
+                continue
+            if c not in "sdir":
+                return None
+            if k >= len(vals):
+                raise self.raise_("TypeError", "not enough arguments for format string", node)
+            v = vals[k]
+            k += 1
+            if c in "di" and not (isinstance(v, IntV) or (isinstance(v, Const) and isinstance(v.value, int))):
+                return None
+            parts.append(self.to_str(v, repr_=(c == "r"), node=node))
+        if k != len(vals):
+            raise self.raise_("TypeError", "not all arguments converted during string formatting", node)
+        if pos < len(template):
+            parts.append(Const(template[pos:]))
+        if all(isinstance(x, Const) for x in parts):
+            return Const("".join(x.value for x in parts))
+        return Term("fstr", tuple(parts), self.ctx.new_id())
+
     def is_strlike(self, v: AV) -> bool:
         if isinstance(v, Const):
             return isinstance(v.value, str)
         if isinstance(v, (SymStr, SymChar)):
             return True
-        if isinstance(v, Term) and v.op in ("concat", "fstr", "str", "repr", "strmeth", "join", "canonical", "json.dumps", "strslice"):
+        if isinstance(v, Term) and v.op in ("concat", "fstr", "str", "repr", "ascii", "strmeth", "join", "canonical", "json.dumps", "strslice"):
             return True
         if isinstance(v, Sym):
             return self.i.kind_of(v) == "str"
